@@ -394,27 +394,27 @@ func c20Concurrent(e *c20env, sh string, ci int) {
 		detail["streams_total"] = sc - e.baseline.Streams
 		c.Violation("C20:concurrent-first-requests:not-exactly-one-registered-stream", detail)
 	}
-	close(until)
-	served := 0
+	// the camera drops every connection: every requester - also those attached to a pull stream that lost the
+	// registration race and was displaced - must now see an orderly close
+	kit.RemoveAll(pert)
+	cam.Close()
+	released := 0
 	for _, ch := range chans {
 		select {
 		case o := <-ch:
 			if o.kind == "ok" || o.kind == "closed" || o.kind == "notfound" {
-				served++
+				released++
 			} else {
 				detail["outcome"] = o.kind
 				c.Violation("C20:concurrent-first-requests:requester-outcome", detail)
 			}
 		case <-time.After(6*e.timeout + 4*time.Second):
-			c.Inconclusive("concurrent requester did not finish")
+			detail["released"] = released
+			detail["open_pull_goroutines"] = atomic.LoadInt64(&e.pullOpen)
+			c.Violation("C20:concurrent-first-requests:requester-not-released-after-camera-disconnect", detail)
 		}
 	}
-	kit.RemoveAll(pert)
-	cam.Close()
-	// closing the camera listener does not close accepted connections: end them by script
-	cam.SetScript(kit.CamScript{})
-	// camera-side connections are in "silence after 2^30 packets": stop them
-	// (FakeCam.Close sets stop which ends streaming loops)
+	close(until)
 	if ok, what := e.clean(cam, reqPath); !ok {
 		detail["leak"] = what
 		c.Violation("C20:leak:"+strings.SplitN(what, "-instead", 2)[0]+":concurrent", detail)
